@@ -14,6 +14,7 @@ import (
 	"encoding/json"
 	"fmt"
 	"io"
+	"reflect"
 	"sort"
 	"strconv"
 	"strings"
@@ -131,6 +132,8 @@ type CallObs struct {
 	// several tool calls has several); this is what the model is asked about
 	DelivAll []PL `json:"deliv_all,omitempty"`
 	FiredAll []PL `json:"fired_all,omitempty"`
+	// the option list handed to the call was modified by it (which element, which field)
+	ArgsChanged string `json:"args_changed,omitempty"`
 	// resume cases: the node paths that executed / the graph nodes that were entered in this call
 	Ran []string `json:"ran,omitempty"`
 	// resume cases: the checkpoint the call was entered with (nil: none)
@@ -620,6 +623,13 @@ func runCase(c *Case) (obs []CallObs, fatal string) {
 		done := make(chan struct{})
 		var cerr error
 		var pan any
+		// the list the caller passes: the call must leave it as it is (the caller may pass it again)
+		saved := append([]compose.Option(nil), opts[i]...)
+		defer func() {
+			if d := optionsChanged(saved, opts[i]); d != "" && obs[i].Class != "hang" {
+				obs[i].ArgsChanged = d
+			}
+		}()
 		go func() {
 			defer close(done)
 			pan = lib.Recover(func() {
@@ -658,6 +668,33 @@ func runCase(c *Case) (obs []CallObs, fatal string) {
 		wg.Wait()
 	}
 	return obs, ""
+}
+
+// optionsChanged: does the list [now] still hold the very option values of [before] (same
+// slices, same pointers, same functions: an Option is compared field by field by identity)?
+func optionsChanged(before, now []compose.Option) string {
+	if len(before) != len(now) {
+		return fmt.Sprintf("length %d -> %d", len(before), len(now))
+	}
+	for k := range before {
+		a, b := reflect.ValueOf(before[k]), reflect.ValueOf(now[k])
+		for f := 0; f < a.NumField(); f++ {
+			x, y := a.Field(f), b.Field(f)
+			same := true
+			switch x.Kind() {
+			case reflect.Slice:
+				same = x.Len() == y.Len() && x.Pointer() == y.Pointer()
+			case reflect.Ptr, reflect.Func:
+				same = x.Pointer() == y.Pointer()
+			case reflect.Int, reflect.Int64:
+				same = x.Int() == y.Int()
+			}
+			if !same {
+				return fmt.Sprintf("element %d, field %s", k, a.Type().Field(f).Name)
+			}
+		}
+	}
+	return ""
 }
 
 // timesOf: how often the node at path p executes in one call: every looping graph on the way
